@@ -277,8 +277,73 @@ pub fn run(tier: Tier) -> i32 {
     for s in sample_projects.lock().unwrap().iter().take(4) {
         rep.sample(json!({"project": s}));
     }
+    // ---- subkey GROUPS (and ranges) whose names end like plural forms (`tab_one` / `tab_two` / `tab_other` as maps):
+    // only text values are plural forms - the groups stay the keys they are written as, a key missing inside one
+    // and a surplus pair of them are reported under their own names; every presence pattern of the inner keys in fr
+    {
+        let grp = |l: &str, name: &str, with_hint: bool| {
+            let mut e = vec![("title".to_string(), st(&format!("[{l}.{name}.title]")))];
+            if with_hint {
+                e.push(("hint".to_string(), s(vec![text(&format!("[{l}.{name}.hint]")), var("x")])));
+            }
+            Val::Sub(e)
+        };
+        let range = |l: &str, name: &str| {
+            Val::Range(RangeDecl { ty: None, branches: vec![Branch { value: Box::new(st(&format!("[{l}.{name}.0]"))), counts: vec![CountSpec::UInt(0)], map_form: false, value_first: false }, Branch { value: Box::new(st(&format!("[{l}.{name}.fb]"))), counts: vec![], map_form: false, value_first: false }] })
+        };
+        let n = 1usize << 5;
+        vmodel::par::par_for(n * 2, |w, i| {
+            let bits = i % n;
+            let namespaced = i / n == 1;
+            let mut cfg = Config::simple("en", &["fr", "en"]);
+            if namespaced {
+                cfg = cfg.with_namespaces(&["two", "one"]);
+            }
+            let mut p = Project::new(cfg);
+            let en = vec![
+                ("item".to_string(), st("[en.item]")),
+                ("tab_one".to_string(), grp("en", "tab_one", true)),
+                ("tab_two".to_string(), grp("en", "tab_two", true)),
+                ("tab_other".to_string(), grp("en", "tab_other", true)),
+                ("rng_one".to_string(), range("en", "rng_one")),
+                ("rng_other".to_string(), range("en", "rng_other")),
+                ("title".to_string(), st("[en.title]")),
+            ];
+            let mut fr = vec![("item".to_string(), st("[fr.item]")), ("title".to_string(), st("[fr.title]"))];
+            for (b, name) in ["tab_one", "tab_two", "tab_other"].iter().enumerate() {
+                if bits >> b & 1 == 1 {
+                    // (with the hint in one of them only: a key missing inside a group named like a form)
+                    fr.push((name.to_string(), grp("fr", name, b != 2)));
+                }
+            }
+            if bits >> 3 & 1 == 1 {
+                fr.push(("rng_one".to_string(), range("fr", "rng_one")));
+                fr.push(("rng_other".to_string(), range("fr", "rng_other")));
+            }
+            if bits >> 4 & 1 == 1 {
+                // surplus groups named like forms
+                fr.push(("panel_one".to_string(), grp("fr", "panel_one", false)));
+                fr.push(("panel_other".to_string(), grp("fr", "panel_other", true)));
+            }
+            if namespaced {
+                p.set_file(Some("one"), "en", en.clone());
+                p.set_file(Some("one"), "fr", fr.clone());
+                p.set_file(Some("two"), "en", vec![("a".to_string(), st("[en.two.a]"))]);
+                p.set_file(Some("two"), "fr", vec![("a".to_string(), st("[fr.two.a]"))]);
+            } else {
+                p.set_file(None, "en", en);
+                p.set_file(None, "fr", fr);
+            }
+            let (e, _) = check_project(&rep, "C07", "groups-named-like-forms", &p, &scratch.worker(w), &keys_total);
+            if e != Expect::Accept {
+                vmodel::report::machinery_fail(&format!("generator produced a project the model does not accept: {e:?}"));
+            }
+            rep.eval(1);
+        });
+        rep.count("projects_with_groups_named_like_plural_forms", (n * 2) as u64);
+    }
     let mut cov = serde_json::Map::new();
-    cov.insert("rule".into(), json!("default locale en holds {a, b, g.x, g.y, g.h.z, p_one/p_other}; per non-default locale every combination of: a in {value,null,absent}; g in {absent, null, value (swap), group with x,y in {value,null,absent} and h in {absent,null,value (swap), group with z in 3 states}}; p in {forms, null, absent, only p_one, plain value, only p_other}; surplus in {none, value, group, plural pair, inside g, default's value b as a group, a key ending in _other, a plural with a form its locale never selects}; the default locale also holds a plain key `kind_other`; x inherits {none, explicit to default} x declared order of the locales (every permutation, rotating with the job index: the default first / in the middle / last) x {no namespaces, two namespaces with different patterns}; thorough adds a third locale (reduced pattern set) with every inherits map; oracle: exact multiset of MissingKey/SurplusKey/UnusedForm diagnostics, accessible key set == default's keys in every locale, SubKeyMissmatch for swaps, and every key rendered in every locale"));
+    cov.insert("rule".into(), json!("default locale en holds {a, b, g.x, g.y, g.h.z, p_one/p_other}; per non-default locale every combination of: a in {value,null,absent}; g in {absent, null, value (swap), group with x,y in {value,null,absent} and h in {absent,null,value (swap), group with z in 3 states}}; p in {forms, null, absent, only p_one, plain value, only p_other}; surplus in {none, value, group, plural pair, inside g, default's value b as a group, a key ending in _other, a plural with a form its locale never selects}; the default locale also holds a plain key `kind_other`; x inherits {none, explicit to default} x declared order of the locales (every permutation, rotating with the job index: the default first / in the middle / last) x {no namespaces, two namespaces with different patterns}; thorough adds a third locale (reduced pattern set) with every inherits map; plus 64 projects whose default holds subkey groups and ranges named like plural forms (tab_one / tab_two / tab_other as maps, rng_one / rng_other as ranges) with every presence pattern of them in fr, a key missing inside one and a surplus pair panel_one / panel_other, flat and namespaced: they stay the keys they are written as; oracle: exact multiset of MissingKey/SurplusKey/UnusedForm diagnostics, accessible key set == default's keys in every locale, SubKeyMissmatch for swaps, and every key rendered in every locale"));
     cov.insert("exhaustive".into(), json!(true));
     cov.insert("outcome_classes".into(), json!(*classes.lock().unwrap()));
     cov.insert("suppress_key_warnings_build".into(), json!(cfg!(feature = "suppress")));
